@@ -2,7 +2,6 @@ package main
 
 import (
 	"fmt"
-	"go/token"
 	"strings"
 
 	"golang.org/x/tools/go/ssa"
@@ -69,28 +68,8 @@ func rulesC12Roles(p *Prog, r *Report) {
 		pol string
 	}
 	uses := map[string][]use{}
-	for _, f := range p.RList {
-		for _, b := range f.Blocks {
-			for _, in := range b.Instrs {
-				bo, ok := in.(*ssa.BinOp)
-				if !ok || (bo.Op != token.EQL && bo.Op != token.NEQ) {
-					continue
-				}
-				for _, pair := range [][2]ssa.Value{{bo.X, bo.Y}, {bo.Y, bo.X}} {
-					ld, ok := pair[0].(*ssa.UnOp)
-					if !ok || ld.Op != token.MUL {
-						continue
-					}
-					fa, ok := ld.X.(*ssa.FieldAddr)
-					if !ok || fieldOf(fa).Struct != tokT.Type().String() || fieldOf(fa).Field != "role" {
-						continue
-					}
-					if c, ok := pair[1].(*ssa.Const); ok && c.Value != nil {
-						uses[c.Value.ExactString()] = append(uses[c.Value.ExactString()], use{f, in, bo.Op.String()})
-					}
-				}
-			}
-		}
+	for _, u := range roleUses(p) {
+		uses[u.role] = append(uses[u.role], use{u.fn, u.in, ""})
 	}
 	// exception role
 	{
